@@ -466,6 +466,7 @@ def check(prog, run):
     reindex(prog, run)
     run.rule("R-validated", "Geometry1/Geometry2 are built from the tables returned by check_on_geo1/2 (validated, normalised, re-indexed), keyword by keyword", 10)
     validated(prog, run)
+    normalised_returned(prog, run)
     attr_rule(prog, run)
     display_rule(prog, run)
     try:
@@ -586,6 +587,9 @@ def _first_sheet(e, dname):
         if isinstance(cur, ast.Call) and isinstance(cur.func, ast.Attribute) and cur.func.attr == "get" and isinstance(cur.func.value, ast.Name) and cur.func.value.id == dname \
                 and cur.args and isinstance(cur.args[0], ast.Constant) and isinstance(cur.args[0].value, str):
             return cur.args[0].value
+        if isinstance(cur, ast.Call) and len(cur.args) >= 2 and isinstance(cur.args[0], ast.Name) and cur.args[0].id == dname and isinstance(cur.args[1], ast.Constant) \
+                and isinstance(cur.args[1].value, str):
+            return cur.args[1].value            # a helper handed the dictionary and the name of the sheet it reads
         if isinstance(cur, ast.Subscript):
             cur = cur.value
         elif isinstance(cur, ast.Attribute):
@@ -598,10 +602,125 @@ def _first_sheet(e, dname):
             cur = cur.body
         else:
             break
+    # off the spine: the sheet when the expression reads exactly ONE (d['<sheet>'], d.get('<sheet>'), helper(d, '<sheet>')); with several the
+    # first one mentioned would be a guess
+    seen = []
     for n in ast.walk(e):
+        sh = None
         if isinstance(n, ast.Subscript) and isinstance(n.value, ast.Name) and n.value.id == dname and isinstance(n.slice, ast.Constant) and isinstance(n.slice.value, str):
-            return n.slice.value
-    return None
+            sh = n.slice.value
+        elif isinstance(n, ast.Call) and isinstance(n.func, ast.Attribute) and n.func.attr == "get" and isinstance(n.func.value, ast.Name) and n.func.value.id == dname \
+                and n.args and isinstance(n.args[0], ast.Constant) and isinstance(n.args[0].value, str):
+            sh = n.args[0].value
+        elif isinstance(n, ast.Call) and len(n.args) >= 2 and isinstance(n.args[0], ast.Name) and n.args[0].id == dname and isinstance(n.args[1], ast.Constant) and isinstance(n.args[1].value, str):
+            sh = n.args[1].value
+        if sh is not None and sh not in seen:
+            seen.append(sh)
+    if len(seen) != 1:
+        return None
+    # a local table that was not written out (several definitions) may come from ANY sheet: the one sheet that is visible is then no evidence
+    fi_ = CUR.get("fi_for_sheets")
+    if fi_ is not None:
+        local_names = {t_.id for a_ in ast.walk(fi_.node) if isinstance(a_, (ast.Assign, ast.AugAssign)) for t0 in (a_.targets if isinstance(a_, ast.Assign) else [a_.target])
+                       for t_ in ast.walk(t0) if isinstance(t_, ast.Name)}
+        # (names inside the arguments of calls are inputs to helpers, e.g. the sensor names handed to a re-indexing: only the spine matters)
+        spine = e
+        while isinstance(spine, (ast.Subscript, ast.Attribute, ast.IfExp, ast.Call)):
+            if isinstance(spine, ast.Subscript) or isinstance(spine, ast.Attribute):
+                spine = spine.value
+            elif isinstance(spine, ast.IfExp):
+                spine = spine.orelse if isinstance(spine.body, ast.Constant) else spine.body
+            elif isinstance(spine.func, ast.Attribute):
+                spine = spine.func.value
+            elif spine.args:
+                spine = spine.args[0]
+            else:
+                break
+        if isinstance(spine, ast.Name) and spine.id in local_names and spine.id != dname:
+            return None
+    return seen[0]
+
+
+NORMALISERS = ("fillna", "reindex", "sub", "astype", "replace", "sort_index", "reset_index", "dropna", "rename", "clip", "round")
+
+
+def normalised_returned(prog, run):
+    """R-normalised: a table the validation routine NORMALISES (fillna, reindex, shift to zero-based, ..) is handed back in that form: either the
+    normalised table is what is returned, or it was stored back into the dictionary before the sheet is read again for the return.  A
+    routine that computes `t = d['S'].fillna(0)` for its checks and then returns `d['S']` hands back the raw table."""
+    run.rule("R-normalised", "the validation routines return the normalised version of every table they normalise (not the raw sheet read again)", 2)
+    raw = prog.raw
+    for q in GEO:
+        cf = raw.func(q)
+        f = rel(raw.mods[cf.mod].path)
+        d = dict_param(cf)
+
+        def root_sheet(e, names):
+            """(sheet, normalised on the way) of the spine of e; names = {local: (sheet, normalised)}"""
+            cur, norm = e, False
+            for _ in range(40):
+                if isinstance(cur, ast.Subscript) and isinstance(cur.value, ast.Name) and cur.value.id == d and isinstance(cur.slice, ast.Constant) and isinstance(cur.slice.value, str):
+                    return cur.slice.value, norm
+                if isinstance(cur, ast.Call) and isinstance(cur.func, ast.Attribute) and cur.func.attr == "get" and isinstance(cur.func.value, ast.Name) and cur.func.value.id == d \
+                        and cur.args and isinstance(cur.args[0], ast.Constant):
+                    return cur.args[0].value, norm
+                if isinstance(cur, ast.Name) and cur.id in names:
+                    return names[cur.id][0], norm or names[cur.id][1]
+                if isinstance(cur, ast.Call) and isinstance(cur.func, ast.Attribute):
+                    norm = norm or cur.func.attr in NORMALISERS
+                    cur = cur.func.value
+                elif isinstance(cur, (ast.Subscript, ast.Attribute)):
+                    cur = cur.value
+                elif isinstance(cur, ast.IfExp):
+                    cur = cur.orelse if isinstance(cur.body, ast.Constant) else cur.body
+                else:
+                    return None, False
+            return None, False
+        names = {}
+        norm_at = {}        # sheet -> line of the first normalisation bound to a local
+        back_at = {}        # sheet -> lines of stores back into the dictionary
+        events = sorted([n for n in ast.walk(cf.node) if isinstance(n, (ast.Assign, ast.Return)) and hasattr(n, "lineno")], key=lambda n: n.lineno)
+        n_ob = 0
+        for n in events:
+            if isinstance(n, ast.Assign) and len(n.targets) == 1:
+                t = n.targets[0]
+                sh, nrm = root_sheet(n.value, names)
+                if isinstance(t, ast.Name):
+                    if sh is not None:
+                        names[t.id] = (sh, nrm or names.get(t.id, (None, False))[1] if names.get(t.id, (None,))[0] == sh else nrm)
+                        if names[t.id][1]:
+                            norm_at.setdefault(sh, n.lineno)
+                    else:
+                        names.pop(t.id, None)
+                elif isinstance(t, ast.Subscript) and isinstance(t.value, ast.Name) and t.value.id == d and isinstance(t.slice, ast.Constant):
+                    back_at.setdefault(t.slice.value, []).append(n.lineno)
+                    if nrm and sh == t.slice.value:
+                        norm_at.setdefault(sh, n.lineno)
+            elif isinstance(n, ast.Return) and isinstance(n.value, ast.Tuple):
+                for k, e in enumerate(n.value.elts):
+                    # the element, or the one definition of the local it names
+                    raw_read = None
+                    x = e
+                    if isinstance(x, ast.Name) and x.id not in names:
+                        continue
+                    sh, nrm = root_sheet(x, names)
+                    if sh is None or sh not in norm_at:
+                        continue
+                    # where was the sheet read for this element?
+                    if isinstance(x, ast.Name):
+                        defs = [a for a in events if isinstance(a, ast.Assign) and len(a.targets) == 1 and isinstance(a.targets[0], ast.Name) and a.targets[0].id == x.id]
+                        read_line = defs[-1].lineno if defs else n.lineno
+                    else:
+                        read_line = n.lineno
+                    n_ob += 1
+                    stored = any(norm_at[sh] <= b <= read_line for b in back_at.get(sh, []))
+                    ok = True if (nrm or stored) else False
+                    run.ob("R-normalised", cf.qual, f"returned '{sh}' is the normalised table", ok,
+                           f"element {k} (`{astq.src(e, 30)}`) " + ("is the normalised table" if nrm else ("reads the sheet after the normalised table was stored back" if stored else
+                           f"reads sheet '{sh}' again (line {read_line}) although the table normalised at line {norm_at[sh]} was never stored back: the raw table is returned")),
+                           witness=f"{sh}:{'norm' if nrm else 'stored' if stored else 'raw'}", file=f, node=n, config=sh)
+        if n_ob == 0:
+            run.ob("R-normalised", cf.qual, "normalised tables", None, "no returned table traced to a sheet this routine normalises", file=f, node=cf.node)
 
 
 def validated(prog, run):
@@ -616,7 +735,9 @@ def validated(prog, run):
         rets = [n for n in ast.walk(cf.node) if isinstance(n, ast.Return) and isinstance(n.value, ast.Tuple)]
         if rets:
             # (an element written `d['<sheet>']` in the return statement IS that sheet, whatever was stored there before)
+            CUR["fi_for_sheets"] = cf
             sheet_of_elem[cf.node.name] = [_first_sheet(e, d) or _first_sheet(astq.expr_at(cf, rets[-1], e), d) for e in rets[-1].value.elts]
+            CUR["fi_for_sheets"] = None
     by_keyword = {}      # (geometry class, keyword) -> sheet, learnt from the def_geoN route and required of the by-file route
     # sheet -> public argument, from the dict literal that def_geoN assembles for the validation function whose sheets it names
     sheets_of_fn = {}
